@@ -1253,7 +1253,7 @@ func explainDescribeQuery(sb *strings.Builder, n *ast.DescribeQuery, indent stri
 		}
 		fmt.Fprintf(sb, "%sDescribeQuery (children %d)\n", indent, children)
 		fmt.Fprintf(sb, "%s TableExpression (children 1)\n", indent)
-		explainFunctionCall(sb, n.TableFunction, indent+"  ", 2)
+		explainFunctionCall(sb, n.TableFunction, indent+"  ", depth+2)
 		if n.Format != "" {
 			fmt.Fprintf(sb, "%s Identifier %s\n", indent, n.Format)
 		}
@@ -1610,7 +1610,7 @@ func explainAttachQuery(sb *strings.Builder, n *ast.AttachQuery, indent string, 
 	}
 }
 
-func explainBackupQuery(sb *strings.Builder, n *ast.BackupQuery, indent string) {
+func explainBackupQuery(sb *strings.Builder, n *ast.BackupQuery, indent string, depth int) {
 	if n == nil {
 		fmt.Fprintf(sb, "%s*ast.BackupQuery\n", indent)
 		return
@@ -1637,7 +1637,7 @@ func explainBackupQuery(sb *strings.Builder, n *ast.BackupQuery, indent string) 
 			fmt.Fprintf(sb, "%s Function %s (children 1)\n", indent, n.Target.Name)
 			fmt.Fprintf(sb, "%s  ExpressionList (children %d)\n", indent, len(n.Target.Arguments))
 			for _, arg := range n.Target.Arguments {
-				Node(sb, arg, 3)
+				Node(sb, arg, depth+3)
 			}
 		} else {
 			fmt.Fprintf(sb, "%s Function %s\n", indent, n.Target.Name)
@@ -1650,7 +1650,7 @@ func explainBackupQuery(sb *strings.Builder, n *ast.BackupQuery, indent string) 
 	}
 }
 
-func explainRestoreQuery(sb *strings.Builder, n *ast.RestoreQuery, indent string) {
+func explainRestoreQuery(sb *strings.Builder, n *ast.RestoreQuery, indent string, depth int) {
 	if n == nil {
 		fmt.Fprintf(sb, "%s*ast.RestoreQuery\n", indent)
 		return
@@ -1677,7 +1677,7 @@ func explainRestoreQuery(sb *strings.Builder, n *ast.RestoreQuery, indent string
 			fmt.Fprintf(sb, "%s Function %s (children 1)\n", indent, n.Source.Name)
 			fmt.Fprintf(sb, "%s  ExpressionList (children %d)\n", indent, len(n.Source.Arguments))
 			for _, arg := range n.Source.Arguments {
-				Node(sb, arg, 3)
+				Node(sb, arg, depth+3)
 			}
 		} else {
 			fmt.Fprintf(sb, "%s Function %s\n", indent, n.Source.Name)
